@@ -239,6 +239,34 @@ def run(ctx):
     ctx.extra['instance_state_stores'] = n
     r.require_min(30, 'stores to instance state')
 
+    # ---------------- R14i the registry search itself
+    r = ctx.rule('R14i', 'registry search: NULL only after the whole list was walked, an entry only when its descriptor equals the argument',
+                 'a search that stops early (e.g. assuming an ordering) reports live instances as unknown and lets the allocator reissue their descriptors')
+    from ..paths import enumerate_paths
+    lf = P.fn('backend_instance_get_by_desc_locked')
+    Cl = Canon(P, lf)
+    np_ = 0
+    for n, p in enumerate(enumerate_paths(P, lf)):
+        T = [(pr, a, b) for pr, a, b, w, i in p.truths()]
+        isnull = p.ret == 'null' or ('eq', p.ret, 'null') in T
+        np_ += 1
+        if isnull:
+            # exhausted: the last truth says the cursor is NULL, and no entry was skipped on a condition other than "different descriptor"
+            skipped = [(pr, a, b) for pr, a, b in T if '.idesc' in a + b and pr != 'ne']
+            if T and T[-1][0] == 'eq' and T[-1][2] == 'null' and not skipped:
+                r.ok(f'path #{n}: NULL after the end of the list', func=lf.name, loc=lf.mod.src, trivial=(len(T) == 1))
+            else:
+                r.fail(f'path #{n}: NULL result', func=lf.name, sig='NULL returned before the end of the list', loc=lf.mod.src,
+                       msg=f'the search returns NULL although the list is not exhausted (conditions on this path: {T[-3:]}): a live instance behind this position is reported unknown')
+        else:
+            want = ('eq', f'*{p.ret}.idesc', 'arg0')
+            if want in T or ('eq', 'arg0', f'*{p.ret}.idesc') in T:
+                r.ok(f'path #{n}: entry returned under idesc == desc', func=lf.name, loc=lf.mod.src)
+            else:
+                r.fail(f'path #{n}: entry result', func=lf.name, sig='entry returned without idesc == desc', loc=lf.mod.src,
+                       msg=f'the search returns {p.ret} on a path without the test idesc == desc (conditions: {T[-3:]})')
+    r.require_min(3)
+
     # ---------------- R14f
     r = ctx.rule('R14f', 'GF table references: +1 on every successful RS init path, 0 on every failing one, -1 in exit; free only at count 0',
                  'an unbalanced count frees tables a live instance uses, or keeps 1 MiB forever')
@@ -259,16 +287,8 @@ def rule_refcount(ctx, P, r):
         if any(c in ('@deinit_liberasurecode_rs_vand', '@rs_galois_deinit_tables') for c in cs):
             d -= 1
         return d
-    # the built-in wrappers call the galois functions exactly once
-    for w, g in (('init_liberasurecode_rs_vand', 'rs_galois_init_tables'), ('deinit_liberasurecode_rs_vand', 'rs_galois_deinit_tables')):
-        wf = P.fn(w)
-        n = sum(1 for i in wf.insts() if i.op == 'call' and i.callee == '@' + g)
-        if n == 1:
-            r.ok(f'{w} calls {g} exactly once', func=wf.name, loc=wf.mod.src)
-        else:
-            r.fail(f'{w} -> {g}', func=wf.name, sig=f'{n} calls', loc=wf.mod.src, msg=f'{w} calls {g} {n} times')
     # path-sensitive count sets
-    def flow(fn):
+    def flow(fn, delta=delta):
         IN = {fn.entry: {0}}
         OUT = {}
         changed = True
@@ -291,6 +311,82 @@ def rule_refcount(ctx, P, r):
                 if OUT.get(b) != cur:
                     OUT[b] = cur; changed = True
         return IN, OUT
+    # the built-in wrappers take / drop exactly one reference on every one of their paths
+    def gdelta(fn, ins):
+        if ins.op != 'call':
+            return 0
+        return (1 if ins.callee == '@rs_galois_init_tables' else 0) - (1 if ins.callee == '@rs_galois_deinit_tables' else 0)
+    for w, want in (('init_liberasurecode_rs_vand', 1), ('deinit_liberasurecode_rs_vand', -1)):
+        wf = P.fn(w)
+        INw, OUTw = flow(wf, gdelta)
+        got = set()
+        for t in [i for i in wf.insts() if i.op == 'ret']:
+            got |= OUTw.get(t.bb, set())
+        if got == {want}:
+            r.ok(f'{w}: every path changes the table reference count by {want:+d}', func=wf.name, loc=wf.mod.src)
+        else:
+            r.fail(f'{w}: reference count change', func=wf.name, sig=f'paths change the count by {sorted(got)}', loc=wf.mod.src,
+                   msg=f'{w} changes the table reference count by {sorted(got)} depending on the path (must be {want:+d} always): its callers pair it '
+                       'unconditionally with the opposite call, so a reference is dropped that was never taken, or never dropped')
+    # the counter itself: every path of init_tables adds one, every path of deinit_tables subtracts one (clamped at 0)
+    from ..paths import enumerate_paths
+    from ..poly import PolyCtx, Poly
+    for gm in [m for m in P.mods if m.src == 'src/builtin/rs_vand/rs_galois.c'][:1]:
+        # deinit (loop-free): constant propagation of counter values -> new counter == max(c - 1, 0), tables freed iff c == 1
+        from ..consteval import ConstEval as _CE, Undecidable as _Und
+        gde = gm.functions.get('@rs_galois_deinit_tables')
+        if gde is None:
+            raise AnalysisBroken('anchor vanished: @rs_galois_deinit_tables')
+        cname = [g for g in gm.globals if 'init_counter' in g]
+        badd = None
+        for c0 in (-2, -1, 0, 1, 2, 3, 7):
+            try:
+                res = _CE(P, gm).run(gde, [], gmem={cname[0]: c0} if cname else {})
+            except _Und as e:
+                badd = ('undecided', str(e)); break
+            newc = res['gmem'].get(cname[0]) if cname else None
+            freed = sum(1 for k_, i_, a_ in res['events'] if k_ == 'call' and i_.callee == '@free')
+            if newc != max(c0 - 1, 0):
+                badd = ('fail', f'counter {c0} becomes {newc}, expected {max(c0 - 1, 0)}'); break
+            if (freed > 0) != (c0 == 1):
+                badd = ('fail', f'with counter {c0} the tables are ' + ('freed' if freed else 'not freed')); break
+        inst = '@rs_galois_deinit_tables: counter := max(counter - 1, 0); tables freed exactly when it drops from 1 to 0'
+        if badd is None:
+            r.ok(inst, func=gde.name, loc=gde.mod.src)
+        elif badd[0] == 'undecided':
+            r.undecided(inst, loc=gde.mod.src, msg=badd[1])
+        else:
+            r.fail(inst, func=gde.name, sig='deinit: ' + badd[1][:60], loc=gde.mod.src, msg=f'rs_galois_deinit_tables: {badd[1]}: users of the shared tables are miscounted or the tables are freed under a live instance')
+        for gname, step in (('@rs_galois_init_tables', 1),):
+            gf = gm.functions.get(gname)
+            if gf is None:
+                raise AnalysisBroken(f'anchor vanished: {gname}')
+            Cg = Canon(P, gf)
+            pcg = PolyCtx(P, gf, Cg)
+            cnt = None
+            bad = None
+            npaths = 0
+            for p in enumerate_paths(P, gf):
+                npaths += 1
+                sts = [e for e in p.events if e.op == 'store' and Cg.addr(e.ops[1], p.env).startswith('@init_counter')]
+                if cnt is None and sts:
+                    cnt = Cg.addr(sts[0].ops[1], p.env)
+                if not sts:
+                    bad = ('a path returns without changing the counter', gf.mod.src); break
+                first = pcg.val(sts[0].ops[0])
+                if first != Poly.atom('*' + Cg.addr(sts[0].ops[1], p.env)) + Poly.const(step):
+                    bad = (f'the counter is set to {first} (expected counter {step:+d})', sts[0].loc); break
+                for e in sts[1:]:
+                    v = Cg.val(e.ops[0], p.env)
+                    if not (step == -1 and v == '0' and any(pr in ('slt', 'sle') and b in ('0', '-1') for pr, a, b, w, i in p.truths())):
+                        bad = (f'the counter is stored again with {v}', e.loc); break
+                if bad:
+                    break
+            inst = f'{gname}: every path changes init_counter by {step:+d}' + (' (reset to 0 only when it went negative)' if step < 0 else '')
+            if bad:
+                r.fail(inst, func=gf.name, sig=f'counter update: {bad[0][:60]}', loc=bad[1], msg=f'{gname}: {bad[0]}: users of the shared tables are miscounted, so the tables are freed under a live instance or never')
+            elif npaths:
+                r.ok(inst, func=gf.name, loc=gf.mod.src, facts={'paths': npaths})
     IN, OUT = flow(init)
     rets = [i for i in init.insts() if i.op == 'ret']
     for t in rets:
